@@ -6,7 +6,10 @@
 // (strategy + 10 = same strategy with spurious futex_wait returns injected)
 // stdin lines: <case-id> <seed> <strategy> <kind> <workers> <global-cap> <local-cap> <steal> <balance-us> <bodies> <threads>
 //   kind     P thread pool | I inplace | T always-new-thread | F executor whose invoke refuses (BasicExecutor::invoke)
-//   bodies   task table, ';'-separated, entry i = children task i submits while it runs ("-" none, else "a.b.c")
+//   bodies   task table, ';'-separated, entry i = children task i submits while it runs ("-" none, else "a.b.c");
+//            an entry "n" in place of a child id: the task synchronously runs a function through
+//            InplaceExecutor::instance() (a nested RunnerScope of another executor) and afterwards must still
+//            report is_running_in() for its own executor
 //   threads  external threads '|'-separated, ops ','-separated:
 //              s<id> submit/execute task id (odd id: execute -> future, even id: submit -> int)
 //              W     wakeup_one_worker()         X stop()/join()        D delete the executor (destructor)
@@ -86,6 +89,17 @@ static int run_task(int id) {
   if (!W->ex->is_running_in()) t.scope_ok = false;
   if (W->kind != 'I' && InplaceExecutor::instance().is_running_in()) t.other_scope = true;
   for (int c : t.children) {
+    if (c < 0) {   // nested use of another executor on this thread
+      int inner = 0;
+      auto f = InplaceExecutor::instance().execute([&inner] {
+        inner = InplaceExecutor::instance().is_running_in() ? 1 : -1;
+        return 0;
+      });
+      if (!f.valid() || inner != 1) t.scope_ok = false;          // the nested function ran inside the in-place executor
+      if (!W->ex->is_running_in()) t.scope_ok = false;           // ... and the task is back in its own executor
+      if (W->kind != 'I' && InplaceExecutor::instance().is_running_in()) t.other_scope = true;
+      continue;
+    }
     submit_task(c, id);
     if (g_linger) for (int k = 0; k < g_linger; ++k) sched_yield();   // keep the parent busy: idle workers get to steal
   }
@@ -152,7 +166,7 @@ int main() {
       std::stringstream ss(bodies); std::string b;
       while (std::getline(ss, b, ';')) {
         TaskInfo t;
-        if (b != "-") { std::stringstream s2(b); std::string c; while (std::getline(s2, c, '.')) if (!c.empty()) t.children.push_back(atoi(c.c_str())); }
+        if (b != "-") { std::stringstream s2(b); std::string c; while (std::getline(s2, c, '.')) if (!c.empty()) t.children.push_back(c == "n" ? -1 : atoi(c.c_str())); }
         world.tasks.push_back(std::move(t));
       }
     }
